@@ -341,7 +341,14 @@ uint32_t DNS::compose_name(const uint8_t* ptr, char* out_ptr) const {
     const uint8_t* end_ptr = 0;
     char* current_out_ptr = out_ptr;
     uint8_t pointer_counter = 0;
-    while (*ptr) {
+    while (true) {
+        // The name may run up to the end of the data without a terminator
+        if (TINS_UNLIKELY(ptr >= end)) {
+            throw malformed_packet();
+        }
+        if (*ptr == 0) {
+            break;
+        }
         // It's an offset
         if (((*ptr & 0xc0) == 0xc0)) {
             if (pointer_counter++ > 30){
